@@ -94,7 +94,7 @@ func recEvent(r *kvs.Record, id func(string) int) map[string]any {
 	if r == nil {
 		return map[string]any{"none": true}
 	}
-	return map[string]any{"val": string(r.Value), "ver": id(r.Version), "exp": expFlag(r.ExpiresAt)}
+	return map[string]any{"val": linStripPrev(r.Value), "ver": id(r.Version), "exp": expFlag(r.ExpiresAt)}
 }
 
 func (o *linOp) invEvent(id func(string) int) map[string]any {
@@ -139,7 +139,7 @@ func (o *linOp) retEvent(id func(string) int) map[string]any {
 	case "Put", "Cas":
 		ev["ver"], ev["val"] = 0, ""
 		if ok {
-			ev["ver"], ev["val"] = id(o.rec.Version), string(o.rec.Value)
+			ev["ver"], ev["val"] = id(o.rec.Version), linStripPrev(o.rec.Value)
 		}
 	case "Get":
 		if ok {
@@ -388,6 +388,10 @@ func (th *linThread) do(op, k, sel string, fire bool) {
 		o.exp, et = th.newExp()
 		if op == "Cas" {
 			o.arg = th.casArg(k, sel)
+			if len(vb) > 0 && o.arg != "" {
+				// the new value links to the record it replaces ("prev=<version>"): what a value contains is never the version
+				vb = []byte(string(vb) + "|prev=" + o.arg)
+			}
 		}
 	case "GetMany":
 		o.keys = th.manyKeys(true)
@@ -851,4 +855,13 @@ func (p *prefixStore) WaitForVersionChange(ctx context.Context, key, ver string)
 }
 func (p *prefixStore) ListKeys(ctx context.Context, pattern string) (iterable.Iterator[string], error) {
 	return p.in.ListKeys(ctx, p.pre+pattern)
+}
+
+
+// linStripPrev: the value as the model knows it (without the link to the predecessor a Cas appends)
+func linStripPrev(b []byte) string {
+	if i := strings.Index(string(b), "|prev="); i >= 0 {
+		return string(b[:i])
+	}
+	return string(b)
 }
